@@ -15,6 +15,7 @@ const (
 type Outcome struct {
 	Kind  int
 	At    int    // offset into the input (including a BOM) of the offending byte, for Reject; len(input) otherwise
+	BOM   bool   // the input starts with 0xEF (a BOM or the start of one)
 	Depth int    // open containers at the end / at the offending byte
 	Trace string // reference automaton states, one letter per byte (path-determined: used in finding signatures)
 }
@@ -413,19 +414,21 @@ func (m *Machine) AtEnd() int {
 // Classify decides membership of buf in "optional BOM, ws, one JSON text, ws".
 func Classify(buf []byte) Outcome {
 	off := 0
+	bom := false
 	if len(buf) >= 1 && buf[0] == 0xEF {
 		// a BOM must be complete
+		bom = true
 		if len(buf) < 2 {
-			return Outcome{Kind: Incomplete}
+			return Outcome{Kind: Incomplete, BOM: true}
 		}
 		if buf[1] != 0xBB {
-			return Outcome{Kind: Reject, At: 1}
+			return Outcome{Kind: Reject, At: 1, BOM: true}
 		}
 		if len(buf) < 3 {
-			return Outcome{Kind: Incomplete}
+			return Outcome{Kind: Incomplete, BOM: true}
 		}
 		if buf[2] != 0xBF {
-			return Outcome{Kind: Reject, At: 2}
+			return Outcome{Kind: Reject, At: 2, BOM: true}
 		}
 		off = 3
 	}
@@ -433,10 +436,10 @@ func Classify(buf []byte) Outcome {
 	m.Init()
 	for i := off; i < len(buf); i++ {
 		if !m.Feed(buf[i]) {
-			return Outcome{Kind: Reject, At: i, Trace: string(m.Trace), Depth: m.Depth}
+			return Outcome{Kind: Reject, At: i, Trace: string(m.Trace), Depth: m.Depth, BOM: bom}
 		}
 	}
-	return Outcome{Kind: m.AtEnd(), At: len(buf), Trace: string(m.Trace), Depth: m.Depth}
+	return Outcome{Kind: m.AtEnd(), At: len(buf), Trace: string(m.Trace), Depth: m.Depth, BOM: bom}
 }
 
 // LineCol converts an offset to the 1-based line / byte column convention
